@@ -172,23 +172,60 @@ class Rec:
 
 
 def mk_calldata_obj(counter=None):
-    cd = object.__new__(hcd.Calldata)
-    cd.args = None
-    cd.dyn_params = []
+    """built by the real constructor (so that whatever state it sets up exists), with the configuration left to the harness"""
     n = {"k": 0}
 
     def nid():
         n["k"] += 1
         return n["k"]
 
-    cd.new_symbol_id = nid if counter else (lambda: "")
+    cd = hcd.Calldata(None, nid if counter else None)
     return cd
+
+
+def replay_unnamed(r):
+    """real mk_calldata for f(uint256,uint256) and g(bytes,bytes) with unnamed parameters: the leaves / length words must be distinct symbols"""
+    from contracts.common import config
+
+    bad = []
+    for sig, types in (("f(uint256,uint256)", ["uint256", "uint256"]), ("g(bytes,bytes)", ["bytes", "bytes"])):
+        abi = {sig: {"inputs": [{"name": "", "type": t} for t in types]}}
+        cd, dyn = hcd.mk_calldata(abi, hcd.FunctionInfo("C", sig.split("(")[0], sig, "aabbccdd"), config())
+        if types[0] == "uint256":
+            w1, w2 = cd.slice(4, 36).unwrap(), cd.slice(36, 68).unwrap()
+            if z3.eq(w1, w2):
+                bad.append(f"{sig}: both arguments are the one symbol {w1} (argument tuples with different values are not instances of the calldata)")
+        else:
+            names = [str(d.size_symbol) for d in dyn]
+            if len(set(names)) != len(names):
+                bad.append(f"{sig}: both length words are the one symbol {names[0]} (mixed length combinations are never explored)")
+    if bad:
+        return {"reproduced": True, "detail": "; ".join(bad), "inputs": "unnamed parameters of equal type"}
+    return {"reproduced": False, "detail": "unnamed parameters of equal type get distinct symbols"}
 
 
 def encode_cases():
     out = []
     U = hcd.BaseType("x", "uint256")
     B = hcd.BaseType("b", "bytes")
+
+    def harness_unnamed(interp):
+        """two parameters with the same (here: empty) name and type: the label does not tell them apart, so every leaf and every length word
+        has to draw a random tag of its own (the real uid() runs natively; equal tags by chance: 16**-7)"""
+        ctx = interp.ctx
+        rec = Rec(interp, sizes=None)
+        cd = mk_calldata_obj()
+        r1 = interp.call(hcd.Calldata.__dict__["encode"], [cd, "", hcd.BaseType("", "uint256")], {})
+        r2 = interp.call(hcd.Calldata.__dict__["encode"], [cd, "", hcd.BaseType("", "uint256")], {})
+        ok = len(r1.data) == 1 and len(r2.data) == 1 and z3.is_const(r1.data[0]) and z3.is_const(r2.data[0])
+        ctx.oblige("two leaves with the same label and type are different symbols (independent leaves)", z3.BoolVal(ok and not z3.eq(r1.data[0], r2.data[0])), info={"first": str(r1.data[0]) if ok else "?", "second": str(r2.data[0]) if ok else "?"})
+        cd2 = mk_calldata_obj()
+        cd2.args = config(default_bytes_lengths=[0, 32])
+        _, v1 = interp.call(hcd.Calldata.__dict__["get_dyn_sizes"], [cd2, "", hcd.BaseType("", "bytes")], {})
+        _, v2 = interp.call(hcd.Calldata.__dict__["get_dyn_sizes"], [cd2, "", hcd.BaseType("", "bytes")], {})
+        ctx.oblige("two length words with the same label are different symbols (their candidates are explored independently)", z3.BoolVal(z3.is_const(v1) and z3.is_const(v2) and not z3.eq(v1, v2)), info={"first": str(v1), "second": str(v2)})
+
+    out.append(Case(f"{PROP}/calldata.Calldata.encode", "two unnamed leaves / two unnamed dynamic parameters of the same type", harness_unnamed, replay=replay_unnamed, sources=("halmos.calldata:Calldata.encode", "halmos.calldata:Calldata.get_dyn_sizes", "halmos.calldata:Calldata.__init__")))
 
     for typ in ("uint256", "uint8", "int256", "address", "bool", "bytes32", "bytes4"):
 
